@@ -53,7 +53,8 @@ REQUIRED_COUNTERS = ['tables_compared', 'scripted_generate_calls',
                      'bposd_conditional_updates', 'deformed_tables',
                      'tables_reread_after_decoding',
                      'models_reused_across_codes',
-                     'models_sharing_label_and_code_objects']
+                     'models_sharing_label_and_code_objects',
+                     'tables_from_integer_typed_parameters']
 
 OPTIONS = 'IXYZ'
 
@@ -627,6 +628,48 @@ def run_model(task, out):
         if ncodes > 1:
             out.count('models_reused_across_codes')
     direction = tuple(task['direction'])
+    # the same channel written with other number types: integral components
+    # and rates as Python ints / numpy scalars (PauliErrorModel(0, 0.3, 0.7),
+    # error_rate=1), asked on fresh objects BEFORE any float query
+    if any(float(x).is_integer() for x in direction):
+        for tname, conv_i, conv_f in (
+                ('python-int', int, float),
+                ('numpy', np.int64, np.float64)):
+            typed = [conv_i(x) if float(x).is_integer() else conv_f(x)
+                     for x in direction]
+            for kwargs in kwargs_list[:2]:
+                em = PauliErrorModel(*typed, deformation_name=name,
+                                     deformation_kwargs=dict(kwargs)
+                                     if kwargs else None)
+                for cls in classes[:6]:
+                    if name == 'XZZX' and kwargs and 'deformation_axis' \
+                            not in __import__('inspect').signature(
+                                fam.get_class(cls).get_deformation
+                            ).parameters:
+                        continue
+                    size = CODE_SETS[tier][cls][0]
+                    code = fam.build(cls, size)
+                    mech = 'PauliErrorModel' + (f'/{name}' if name else '') \
+                        + '/typed-numbers'
+                    for p in (conv_i(1), conv_i(0), conv_f(0.3)):
+                        desc = {'cls': cls, 'size': list(size),
+                                'direction': direction, 'p': float(p),
+                                'noise_deformation': name, 'kwargs': kwargs,
+                                'number_types': tname}
+                        out.count('tables_from_integer_typed_parameters')
+                        try:
+                            G = check_table(out, em, code, cls, size,
+                                            direction, p, name, kwargs, mech)
+                            if G is not None:
+                                check_sampling(out, em, code, G, desc, mech,
+                                               rng, 1)
+                        except Exception as e:
+                            where = panqec_frame(e)
+                            if where is None:
+                                raise
+                            out.violation(
+                                f'{mech}/raises-{type(e).__name__}',
+                                f'{type(e).__name__}: {e} at {where}', desc)
     # priors on a deformed (non-CSS) code with plain noise
     if name is None and direction[0] != direction[2]:
         em = PauliErrorModel(*direction)
